@@ -72,11 +72,18 @@ Proof. intros He Hl. unfold reads. apply in_or_app; right. apply in_flat_map; ea
 Lemma apply_frame o h x : ~ In x (writes o) -> apply o h x = h x.
 Proof. apply run_frame. Qed.
 
+Lemma apply_agree_deps o (P : loc -> Prop) h h' :
+  agreeP P h h' -> (forall l, In l (flat_map eff_reads (effects o)) -> P l) ->
+  agreeP (fun x => P x \/ In x (writes o)) (apply o h) (apply o h').
+Proof.
+  intros Ha Hr. apply run_agree; auto. intros e He l Hl. apply Hr. apply in_flat_map; eauto.
+Qed.
+
 Lemma apply_agree o (P : loc -> Prop) h h' :
   agreeP P h h' -> (forall l, In l (reads o) -> P l) ->
   agreeP (fun x => P x \/ In x (writes o)) (apply o h) (apply o h').
 Proof.
-  intros Ha Hr. apply run_agree; auto. intros e He l Hl. eapply Hr, reads_eff; eauto.
+  intros Ha Hr. apply apply_agree_deps; auto. intros l Hl. apply Hr. unfold reads. apply in_or_app; now right.
 Qed.
 
 (* the general lemma: operations whose write sets are disjoint from each other's
@@ -112,7 +119,7 @@ Ltac fa := repeat match goal with
   | |- Forall _ _ => progress (unfold rp_inits, copy_default_eps, opt_client, client_locs, inst_locs; cbn)
   end.
 Ltac tab := cbn; repeat rewrite Nat.eqb_refl; cbn; repeat rewrite orb_true_r; cbn; try reflexivity.
-Ltac cases o := destruct o as [i stor opts|i sl|i sl opts|i cfg opts|i c st|i c st|i c|i stor q|st|i c k|i c|i c|i c|c k];
+Ltac cases o := destruct o as [i stor opts|i sl|i sl t opts|i cfg opts|i c st t|i c st t|i c t|i stor q|st|i c k|i c|i c|i c|c k|i c k r];
   try destruct q; try destruct k; try destruct c; try destruct st; cbn.
 
 Definition own_in (ids : list nat) (l : loc) : bool :=
@@ -238,11 +245,22 @@ Proof.
 Qed.
 
 (* ------------------------------------------------------------------ part 3 *)
+Lemma result_agree_deps o (P : loc -> Prop) h h' :
+  agreeP P h h' -> (forall l, In l (obs_reads o) -> P l) -> result o h = result o h'.
+Proof.
+  intros Ha Hr. unfold result. f_equal. apply map_ext_in. intros l Hl. f_equal. now apply Ha, Hr.
+Qed.
+
 Lemma result_agree o (P : loc -> Prop) h h' :
   agreeP P h h' -> (forall l, In l (reads o) -> P l) -> result o h = result o h'.
 Proof.
-  intros Ha Hr. unfold result. apply map_ext_in. intros l Hl. f_equal.
-  apply Ha, Hr. unfold reads. apply in_or_app; left. now apply T_obs_reads.
+  intros Ha Hr. apply (result_agree_deps o P); auto. intros l Hl.
+  apply Hr. unfold reads. apply in_or_app; left. now apply T_obs_reads.
+Qed.
+
+Lemma deps_incl_reads o x : In x (deps o) -> In x (reads o).
+Proof.
+  unfold deps, reads. intro H. apply in_app_or in H as [H|H]; apply in_or_app; [now right | left; now apply T_obs_reads].
 Qed.
 
 (* ... and leave each other's results unchanged *)
@@ -258,7 +276,7 @@ Qed.
 Lemma iso_run k (P : loc -> Prop) : forall (l : list (nat * op)) h1 h2,
   agreeP P h1 h2 ->
   (forall t o, In (t, o) l ->
-     if t =? k then (forall x, In x (reads o ++ writes o) -> P x)
+     if t =? k then (forall x, In x (flat_map eff_reads (effects o)) -> P x)
      else (forall x, In x (writes o) -> ~ P x)) ->
   agreeP P (run_ops (map snd l) h1) (run_ops (of_tag k l) h2).
 Proof.
@@ -267,27 +285,47 @@ Proof.
   unfold of_tag, run_ops in *. cbn [map snd fst filter fold_left].
   destruct (t =? k) eqn:E; cbn [map snd fold_left].
   - apply IH.
-    + intros x Hx. apply (apply_agree o P h1 h2 Ha); auto.
-      intros y Hy. apply Ho, in_or_app; now left.
+    + intros x Hx. apply (apply_agree_deps o P h1 h2 Ha); auto.
     + intros t' o' H'. apply Hl. now right.
   - apply IH.
     + intros x Hx. rewrite apply_frame; auto. intro Hw. exact (Ho x Hw Hx).
     + intros t' o' H'. apply Hl. now right.
 Qed.
 
+(* the other groups only have to stay away from what group k's writes and results DEPEND on *)
 Theorem isolation_sched (l : list (nat * op)) (k : nat) (probe : op) (h : heap) :
   (forall t a b, In (k, a) ((k, probe) :: l) -> In (t, b) l -> t <> k ->
-     disjointL (writes b) (reads a ++ writes a)) ->
+     disjointL (writes b) (deps a)) ->
   result probe (run_ops (map snd l) h) = result probe (run_ops (of_tag k l) h).
 Proof.
   intro Hsep.
-  set (P := fun x => exists a, In (k, a) ((k, probe) :: l) /\ In x (reads a ++ writes a)).
-  apply (result_agree probe P).
+  set (P := fun x => exists a, In (k, a) ((k, probe) :: l) /\ In x (deps a)).
+  apply (result_agree_deps probe P).
   - apply iso_run; [intros x _; reflexivity|].
     intros t o Hin. destruct (t =? k) eqn:E.
-    + apply Nat.eqb_eq in E; subst. intros x Hx. exists o; split; auto. now right.
+    + apply Nat.eqb_eq in E; subst. intros x Hx. exists o; split; [now right|]. unfold deps. apply in_or_app; now left.
     + apply Nat.eqb_neq in E. intros x Hw (a & Ha & Hx). exact (Hsep t a o Ha Hin E x Hw Hx).
-  - intros x Hx. exists probe; split; [now left | apply in_or_app; now left].
+  - intros x Hx. exists probe; split; [now left | unfold deps; apply in_or_app; now right].
+Qed.
+
+Lemma separate_disjoint_deps a b : separate a b = true -> disjointL (writes b) (deps a).
+Proof.
+  intros Hs x Hb Hd. apply (separate_disjoint a b Hs x Hb). apply in_or_app; left. now apply deps_incl_reads.
+Qed.
+
+Lemma separate_isolated a b :
+  separate a b = true -> disjointL (writes b) (reads a ++ writes a) /\ disjointL (writes b) (deps a).
+Proof. intro H. split; [now apply separate_disjoint | now apply separate_disjoint_deps]. Qed.
+
+Lemma handler_result i c k r h : result (HandlerReq i c k r) h = [S r].
+Proof. reflexivity. Qed.
+
+Lemma disjb_spec a b : disjb a b = true -> disjointL a b.
+Proof.
+  unfold disjb. rewrite forallb_forall. intros H x Hx Hb. specialize (H x Hx).
+  apply negb_true_iff in H.
+  assert (existsb (loc_eqb x) b = true) by (apply existsb_exists; exists x; split; auto; apply loc_eqb_refl).
+  congruence.
 Qed.
 
 (* frame *)
@@ -372,16 +410,16 @@ Proof.
 Qed.
 
 Theorem inited_established i c k h o :
-  (exists sl opts, o = NewRPOIDC i sl opts) \/ (exists cfg opts, o = NewRPOAuth i cfg opts) ->
+  (exists sl t opts, o = NewRPOIDC i sl t opts) \/ (exists cfg opts, o = NewRPOAuth i cfg opts) ->
   h (LG GErrH) <> 0 -> h (LG GUnauthH) <> 0 ->
   inited (RPCall i c k) (apply o h) = true.
 Proof.
   intros Ho He Hu.
   assert (Hsplit : exists pre, effects o = pre ++ rp_inits i).
-  { destruct Ho as [(sl & opts & ->)|(cfg & opts & ->)]; unfold effects; eexists; rewrite !app_assoc; reflexivity. }
+  { destruct Ho as [(sl & t & opts & ->)|(cfg & opts & ->)]; unfold effects; eexists; rewrite !app_assoc; reflexivity. }
   destruct Hsplit as (pre & Hpre). unfold apply. rewrite Hpre.
   apply inited_after_inits; auto.
-  intros x Hx. assert (Hc : is_ctor o = true) by (destruct Ho as [(? & ? & ->)|(? & ? & ->)]; reflexivity).
+  intros x Hx. assert (Hc : is_ctor o = true) by (destruct Ho as [(? & ? & ? & ->)|(? & ? & ->)]; reflexivity).
   destruct (ctor_private o Hc x) as (f & ->); eauto.
   unfold writes. rewrite Hpre, map_app. apply in_or_app; now left.
 Qed.
@@ -420,7 +458,7 @@ Proof.
   - match goal with |- list_eqb _ ?a ?b = true => assert (Heq : a = b) end; [|rewrite Heq; apply list_list_eqb_refl].
     apply map_ext_in. intros [k probe] Hp. cbn [fst snd]. symmetry.
     apply isolation_sched. intros t a b Ha Hb Hne.
-    apply separate_disjoint. cbn in Hwf. rewrite forallb_forall in Hwf.
+    apply disjb_spec. cbn in Hwf. rewrite forallb_forall in Hwf.
     assert (Hin : In (k, a) (l ++ probes)).
     { destruct Ha as [Ha|Ha]; [inversion Ha; subst; apply in_or_app; now right | apply in_or_app; now left]. }
     specialize (Hwf _ Hin). rewrite forallb_forall in Hwf. specialize (Hwf _ Hb). cbn in Hwf.
@@ -434,12 +472,14 @@ Definition ex_h0 : list (loc * val) :=
   [(LG (GEp EAuth), 1); (LG (GEp EToken), 2); (LG GErrH, 7); (LG GUnauthH, 8); (LG GHTTPClient, 1)].
 Definition ex_order : input :=
   IOrder ex_h0
-    [(1, NewProvider 1 2 [PEndpoint EAuth 9]); (3, NewProvider 3 4 []); (5, NewRPOIDC 5 0 [RHTTPClient 1]);
-     (5, RPCall 5 1 REndSession)]
-    [(3, ProvReq 3 4 QDiscovery); (6, ClientCall 1 CDiscover)].
+    [(1, NewProvider 1 2 [PEndpoint EAuth 9]); (3, NewProvider 3 4 []); (5, NewRPOIDC 5 0 1 [RHTTPClient 1]);
+     (5, RPCall 5 1 REndSession); (7, NewRS 7 (Some 1) false 2); (8, HandlerReq 5 1 HCodeExchange 0);
+     (9, HandlerReq 5 1 HCodeExchange 1)]
+    [(3, ProvReq 3 4 QDiscovery); (6, ClientCall 1 CDiscover); (7, RSIntrospect 7 1); (8, HandlerReq 5 1 HCodeExchange 0);
+     (9, HandlerReq 5 1 HCodeExchange 1)].
 Example spec_sound_nonvacuous : wf ex_order = true /\ spec ex_order (model ex_order) = true.
 Proof. split; vm_compute; reflexivity. Qed.
 Example inited_nonvacuous :
-  inited (RPCall 5 1 RGetters) (apply (NewRPOIDC 5 0 [RErrorHandler 0]) (heap_of ex_h0)) = true
+  inited (RPCall 5 1 RGetters) (apply (NewRPOIDC 5 0 1 [RErrorHandler 0]) (heap_of ex_h0)) = true
   /\ inited (RPCall 5 1 RGetters) (heap_of ex_h0) = false.
 Proof. split; vm_compute; reflexivity. Qed.
